@@ -159,8 +159,10 @@ def generate(rng, tier):
         {"k": "delim", "ext": 64, "i": {"k": "struct", "name": names.fresh(), "ver": [1, 0], "fs": [["a", u8], ["b", {"k": "prim", "p": "bool"}]]}},
         {"k": "struct", "name": names.fresh(), "ver": [1, 0], "fs": []},
     ]
+    tg.append({"k": "union", "name": names.fresh(), "ver": [1, 0], "fs": [["v%d" % i, u8 if i % 3 else {"k": "prim", "p": "uint", "w": 1 + i % 11, "c": "sat"}] for i in range(257)]})
+    tg.append({"k": "struct", "name": names.fresh(), "ver": [1, 0], "fs": [["h", u8], ["u", dict(tg[-1], name=names.fresh())], ["t", {"k": "prim", "p": "bool"}]]})
     for t in tg:
-        for base in ([0], [1], [8], [1, 16], [0, 8, 16], [3, 5, 64]):
+        for base in ([0], [1], [8], [1, 16], [0, 8, 16], [3, 5, 64], [8, 16], [24]):
             b = {"o": "leaf", "v": base, "how": "set", "raw": False}
             cases.append({"kind": "fields", "type": t, "base": b, "plan": plan(rng, tygen.field_offset_ops(t, b), budget)})
             streams.append("targeted")
